@@ -191,6 +191,8 @@ def coq_scan_forbidden():
 def coq_make(targets, timeout=1500):
     """Full .vo build of the given targets (relative to coq/). Returns (ok, log)."""
     with Lock("coq"):
+        import gentables
+        gentables.regenerate()
         mk = os.path.join(COQ, "Makefile")
         cp = os.path.join(COQ, "_CoqProject")
         os.makedirs(os.path.join(COQ, "extracted"), exist_ok=True)
